@@ -1,16 +1,16 @@
-"""Per-property configuration of the check driver."""
+"""Per-property configuration of the check driver and source of MANIFEST.json."""
 
 COMPONENTS = {
     "real": [
         "internal/ctlog: CreateLog, LoadLog, addLeafToPool, RunSequencer (real ticker on the fake clock), sequence, sequencePool, applyStagedUploads, uploadIssuer, signTreeHead, cache.go on a real SQLite file, http.go handlers",
         "sunlight (root package): tile/leaf codec, checkpoint signer and verifier",
-        "torchwood, golang.org/x/mod/sumdb/{note,tlog}, certificate-transparency-go, crawshaw.io/sqlite, filippo.io/mldsa",
+        "torchwood, golang.org/x/mod/sumdb/{note,tlog}, certificate-transparency-go, crawshaw.io/sqlite (finalizer panic replaced by Close in the harness build), filippo.io/mldsa",
     ],
     "stubbed": [
-        "object storage (ctlog.Backend): in-memory map with atomic read-after-write effects, applied/not-applied failures decided by the scheduler",
+        "object storage (ctlog.Backend): in-memory map with atomic read-after-write effects; ok / error-applied / error-not-applied decided by the scheduler",
         "lock store (ctlog.LockBackend): in-memory CAS register",
-        "wall clock (timeNowUnixMilli) and timers: testing/synctest fake clock plus a fault offset",
-        "process death: incarnation frozen at its seams; cmd/sunlight main() wiring not run",
+        "wall clock (timeNowUnixMilli) and all timers: testing/synctest fake clock plus a fault offset (stall, step back, jump)",
+        "process death: incarnation frozen at its seams, only object map, lock map and cache file survive; cmd/sunlight main() wiring not run",
     ],
     "assumptions": [
         "object storage is read-after-write consistent and effects are atomic and take place between invocation and return",
@@ -21,11 +21,35 @@ COMPONENTS = {
     ],
 }
 
-SEQ = {"engine": "seq", "quick_budget": 50, "thorough_budget": 900}
+SEQ_NOTE = ("Trusted: the harness's reference model (RFC 6962 tree, tile layout, leaf codec, note parser written from the specs), "
+            "crypto/ecdsa, ct-go's signature verifier, Go's testing/synctest. Storage effects are atomic and read-after-write; "
+            "the lock store is assumed linearizable (C05). Bounded: <= 500 scheduler steps per run, <= 4 crashes, trees up to ~1500 leaves "
+            "(65k in the thorough tier). Sampling, not exhaustive.")
+
+ENGINES = [
+    {"name": "seq", "path": "overlay/verifsim/seq", "serves_properties": ["C01", "C02", "C03", "C04"],
+     "kind_free_text": "deterministic simulator: real ctlog.Log instances under a seeded scheduler that owns storage, lock store, clock, crashes"},
+]
+
+SEQ = {"engine": "seq", "quick_budget": 50, "thorough_budget": 900, "level_note": SEQ_NOTE}
 
 PROPS = {
-    "C01": dict(SEQ, expect_probes=["effect.publish", "effect.lock.replace", "prefix.checked", "reload.ok", "fault.clock", "crash.inflight"]),
-    "C02": dict(SEQ),
-    "C03": dict(SEQ, expect_probes=["crash.inflight", "crash.loading-inflight", "crash.inflight.applied", "crash.inflight.lost", "reload.ok"]),
-    "C04": dict(SEQ),
+    "C01": dict(SEQ,
+        level_text="Seeded search over simulated histories (submissions, rounds, every fault placement applied/not applied, crashes, restarts, clock stall/back/jump) of the real sequencer; every lock-store commit and every effective checkpoint upload is recorded, verified independently and checked for size/time monotonicity, lock-before-publish, and MTH-prefix against leaves read back from storage with an independent decoder. Exploration is the right level: the property quantifies over unbounded histories and fault sequences.",
+        expect_probes=["effect.publish", "effect.lock.replace", "prefix.checked", "reload.ok", "fault.clock", "crash.inflight"]),
+    "C02": dict(SEQ,
+        level_text="Every acknowledgement is checked at the scheduler step it is delivered against the durable object map: published checkpoint covers the index, stored leaf equals the submitted entry with the acknowledged timestamp; re-checked after every crash/reload and at the end; HTTP acknowledgements additionally get their SCT verified with ct-go over an independently built leaf.",
+        expect_probes=["effect.publish", "crash.inflight"]),
+    "C03": dict(SEQ,
+        level_text="Crashes are injected at every scheduler step kind (between any two storage/lock operations, with an arbitrary subset of in-flight mutating operations applied), including during LoadLog's own recovery; after faults stop the log must reload, hold every committed tile, keep every acknowledged entry and sequence a fresh entry; staging discards are checked against the published checkpoint at the instant they take effect.",
+        expect_probes=["crash.inflight", "crash.loading-inflight", "crash.inflight.applied", "crash.inflight.lost", "reload.ok"]),
+    "C04": dict(SEQ,
+        level_text="Write-time monitors on every effective storage operation (immutable objects never rewritten, nothing but staging discarded, canonical keys and metadata) and a full independent audit of the durable object map at the instant each checkpoint upload takes effect: every required tile present, byte-exact against the reference rendering, leaf i has index i and a timestamp <= tree head, issuers present, names tiles consistent with an independent parse.",
+        expect_probes=["effect.publish"]),
 }
+
+NOT_APPLICABLE = {
+    "C10": "pure function of its input (codec bijections): no schedule, clock, fault, I/O or second party for a simulator to control; deciding it is input generation (property-based testing), which is outside this technique. See DESIGN.md §6.",
+}
+for _p in ["C05", "C06", "C07", "C08", "C09", "C11", "C12", "C13", "C14", "C15", "C16", "C17", "C18", "C19", "C20"]:
+    NOT_APPLICABLE[_p] = "not claimed yet: the simulator for this property is still being built (see DESIGN.md §5 for the plan)"
